@@ -32,7 +32,9 @@ MultiOk(ev) == ev.mismatch = 0 /\ ev.outside = 0 /\ ev.missing = 0
 
 \* `canary`: the bytes in front of the dataset extent after all calls so far (the page behind the extent is inaccessible:
 \* a write there ends the recording with a Crash line, which is no event of this specification)
-EventOk(ev) == CASE ev.e = "init" -> InitOk(ev) [] ev.e = "multi" -> MultiOk(ev) [] ev.e = "canary" -> ev.overwritten = 0 [] OTHER -> FALSE
+EventOk(ev) == CASE ev.e = "init" -> InitOk(ev) [] ev.e = "multi" -> MultiOk(ev) [] ev.e = "canary" -> ev.overwritten = 0
+                   [] ev.e = "rekey" -> TRUE         \* marker: the cache object was re-keyed; the init lines that follow are judged like all others
+                   [] OTHER -> FALSE
 TInit == l = 1 /\ ds = <<>> /\ req = <<>> /\ todo = <<>> /\ writers = <<>>
 TNext == l <= Len(TraceLog) /\ EventOk(Ev) /\ l' = l + 1 /\ UNCHANGED vars
 TSpec == TInit /\ [][TNext]_<<vars, l>>
